@@ -20,14 +20,18 @@
 //	past_ms  the rps schedule is Start()ed that many ms in the past (0: self-start at first Next);
 //	         >= 2000 makes tokens overdue enough for discard_overflow
 //
-//	burst <perinst 0|1> <T> <A> <instances> <rps-spec>
+//	burst <perinst 0|1> <T> <A> <instances> <rps-spec> [<prov>]
+//
+//	(burst and cfgpool: optional last field prov = 1: the provider's Run returns nil at once; for cfgpool the
+//	startup is then written as a list "pause of 30 ms, once(instances)" so that the first instance starts later
+//	than t=0)
 //
 //	high-contention run without an operation log: <instances> instances started at once, zero-cost
 //	shots, lock-free mocks, the real schedule unwrapped; thousands of simultaneous counter updates.
 //	Observation: "<outcome> <started> <shots+discards> <Request-shots> <Response-shots>
 //	<acquired-released> <unfired_ok 0|1> <InstanceStart-InstanceFinish>"
 //
-//	cfgpool <perinst 0|1> <T> <A> <instances> <form>
+//	cfgpool <perinst 0|1> <T> <A> <instances> <form> [<prov>]
 //
 //	like burst, but the pool is DECODED FROM A CONFIG through the real plugin registry (coreimport.Import +
 //	config.DecodeAndValidate into engine.Config, mock gun/provider/aggregator registered as plugins);
@@ -363,9 +367,16 @@ func buildSched(spec string) core.Schedule {
 type burstProvider struct {
 	left               atomic.Int64
 	acquired, released atomic.Int64
+	early              bool // Run returns nil at once (the whole ammo set is ready before the run)
 }
 
-func (p *burstProvider) Run(ctx context.Context, _ core.ProviderDeps) error { <-ctx.Done(); return nil }
+func (p *burstProvider) Run(ctx context.Context, _ core.ProviderDeps) error {
+	if p.early {
+		return nil
+	}
+	<-ctx.Done()
+	return nil
+}
 func (p *burstProvider) Acquire() (core.Ammo, bool) {
 	if p.left.Add(-1) < 0 {
 		return nil, false
@@ -390,7 +401,7 @@ func runBurst(f []string) string {
 	T, _ := strconv.Atoi(f[2])
 	A, _ := strconv.Atoi(f[3])
 	n, _ := strconv.Atoi(f[4])
-	prov := &burstProvider{}
+	prov := &burstProvider{early: len(f) == 7 && f[6] == "1"}
 	prov.left.Store(int64(A))
 	ag := &burstAggr{}
 	var shots atomic.Int64
@@ -462,10 +473,14 @@ func runCfgPool(f []string) string {
 	T, _ := strconv.Atoi(f[2])
 	A, _ := strconv.Atoi(f[3])
 	n, _ := strconv.Atoi(f[4])
-	prov := &burstProvider{}
+	prov := &burstProvider{early: len(f) == 7 && f[6] == "1"}
 	prov.left.Store(int64(A))
 	ag := &burstAggr{}
 	var shots atomic.Int64
+	var startup interface{} = map[string]interface{}{"type": "once", "times": n}
+	if prov.early {
+		startup = []interface{}{map[string]interface{}{"type": "const", "ops": 0, "duration": "30ms"}, startup}
+	}
 
 	registryMu.Lock()
 	defer registryMu.Unlock()
@@ -488,7 +503,7 @@ func runCfgPool(f []string) string {
 				"gun":              map[string]interface{}{"type": "verif-gun"},
 				"rps-per-instance": perInst,
 				"rps":              rpsForm(f[5], T),
-				"startup":          map[string]interface{}{"type": "once", "times": n},
+				"startup":          startup,
 				"discard_overflow": false,
 			},
 		},
@@ -537,10 +552,10 @@ func burstObs(outcome string, perInst bool, prov *burstProvider, ag *burstAggr, 
 
 func runCase(c string) string {
 	f := strings.Split(c, " ")
-	if f[0] == "burst" && len(f) == 6 {
+	if f[0] == "burst" && (len(f) == 6 || len(f) == 7) {
 		return runBurst(f)
 	}
-	if f[0] == "cfgpool" && len(f) == 6 {
+	if f[0] == "cfgpool" && (len(f) == 6 || len(f) == 7) {
 		return runCfgPool(f)
 	}
 	if f[0] != "pool" || len(f) != 11 {
@@ -819,6 +834,8 @@ func gen(r *vh.Rand, tier string) []string {
 	var out []string
 	// high contention: many instances, zero-cost shots, 10^4..10^5 tokens
 	out = append(out, "burst 0 40000 1000000 16 once:40000", "burst 1 3000 1000000 32 once:3000")
+	// the provider's Run returns before the start loop has launched anything (or while it does)
+	out = append(out, "burst 0 20000 1000000 16 once:20000 1", "burst 0 5000 4000 8 once:5000 1")
 	// shared composite profiles of many small parts (incl. empty ones): hundreds of part boundaries
 	// with several fast instances racing at each
 	out = append(out, "burst 0 3000 3000 8 rep:3000:once:1", "burst 0 3000 1000000 8 rep:1500:once:2,once:0",
@@ -830,6 +847,10 @@ func gen(r *vh.Rand, tier string) []string {
 		}
 	}
 	out = append(out, "cfgpool 1 25 60 4 list1", "cfgpool 0 25 10 4 list2")
+	// config-built pools whose provider is done before the (delayed) first instance starts
+	for _, form := range []string{"plain", "list2", "composite", "const"} {
+		out = append(out, fmt.Sprintf("cfgpool %s %d %d %d %s 1", vh.B(r.Bool()), r.Range(20, 60), r.PickInt([]int{15, 1000000}), r.Range(2, 6), form))
+	}
 	nb := 0
 	if tier == "thorough" {
 		nb = 40
@@ -858,7 +879,11 @@ func gen(r *vh.Rand, tier string) []string {
 			if r.Chance(1, 3) {
 				A = r.Range(0, T*inst+3)
 			}
-			out = append(out, fmt.Sprintf("cfgpool %s %d %d %d %s", vh.B(r.Bool()), T, A, inst, r.Pick(forms)))
+			line := fmt.Sprintf("cfgpool %s %d %d %d %s", vh.B(r.Bool()), T, A, inst, r.Pick(forms))
+			if r.Chance(1, 3) {
+				line += " 1"
+			}
+			out = append(out, line)
 		}
 	}
 	for i := 0; i < nb; i++ {
@@ -878,7 +903,11 @@ func gen(r *vh.Rand, tier string) []string {
 		if !per && r.Chance(1, 3) {
 			A = r.Range(T/2, T+5)
 		}
-		out = append(out, fmt.Sprintf("burst %s %d %d %d %s", vh.B(per), T, A, inst, spec))
+		line := fmt.Sprintf("burst %s %d %d %d %s", vh.B(per), T, A, inst, spec)
+		if r.Chance(1, 3) {
+			line += " 1"
+		}
+		out = append(out, line)
 	}
 	for i := 0; i < n; i++ {
 		p := genRPS(r, tier)
